@@ -29,6 +29,18 @@ package netpoll
 //@   ensures forall x int :: x != ln.fd ==> fdopen[x] == old(fdopen[x]) && closecnt[x] == old(closecnt[x])
 //@   modifies fdopen, closecnt
 
+// Accept: a fresh descriptor wrapped in a netFD on success, nothing opened otherwise (EAGAIN: no connection and no error)
+//@ func (*listener).Accept
+//@   property C13 C15
+//@   note not declared `implements Listener.Accept`: it needs the listener invariant addr != nil (established by the constructors), which the interface contract does not carry
+//@   requires ln.addr != nil
+//@   ensures result1 != nil ==> result0 == nil
+//@   ensures result0 != nil ==> typeis(result0, *netFD) && result0#val != 0 && fresh(result0#val) && as(result0, *netFD).fd >= 0 && fdopen[as(result0, *netFD).fd] && as(result0, *netFD).closed == 0 && (forall x int :: x == as(result0, *netFD).fd ==> !old(fdopen[x]))
+//@   ensures result0 == nil ==> forall x int :: x >= 0 ==> fdopen[x] == old(fdopen[x])
+//@   ensures forall x int :: x >= 0 && (result0 == nil || x != as(result0, *netFD).fd) ==> fdopen[x] == old(fdopen[x])
+//@   ensures forall x int :: closecnt[x] == old(closecnt[x])
+//@   modifies fdopen
+
 //@ func (*listener).parseFD
 //@   property C15
 //@   requires ln.ln != nil
